@@ -44,6 +44,12 @@ fn single(prog: &str) {
     for_each_circuit_set!(one);
 }
 
+/// Quick-sized generation: the `quick` tier, and the `search` tier (which differs by its seed
+/// stream and by sweeping every tamper kind).
+pub fn small(ctx: &mzkh::Ctx) -> bool {
+    ctx.quick() || ctx.search()
+}
+
 fn main() {
     if let Ok(p) = std::env::var("C05_BIG") {
         bigrun::single(&p);
